@@ -11,7 +11,7 @@ GEN = '''SPECIFICATION Spec
 CONSTANTS
   ReplyDecodeFix = TRUE
   Export = "%s"
-  Kinds = {"call", "push"}
+  Kinds = {"call", "push", "badtype"}
   Routes = {"reg", "unreg", "unknown"}
   Houts = {"ok", "status", "panic", "unpackable"}
 ACTION_CONSTRAINT Emit
@@ -56,8 +56,9 @@ def run(prop, tier, verdict):
     exhaustive = tier == 'thorough'
     if not exhaustive:
         rnd = random.Random(seedv)
-        late = [s for s in scen if s['cfg'].get('wret') == 'late']     # few: always replayed
-        scen = rnd.sample([s for s in scen if s['cfg'].get('wret') != 'late'], 3500) + late
+        few = lambda s: s['cfg'].get('wret') == 'late' or s['cfg'].get('kind') == 'badtype'     # few: always replayed
+        late = [s for s in scen if few(s)]
+        scen = rnd.sample([s for s in scen if not few(s)], 3500) + late
     for i, s in enumerate(scen):
         s['id'] = 'd%d' % i
     scfile = os.path.join(wd, 'scen.ndjson')
